@@ -114,8 +114,12 @@ def run_requests(exe, reqs, timeout=600):
     return traces, err
 
 
+def hooks_of(trace):
+    return 1 if any(l == "H 1" for l in trace[:3]) else 0
+
+
 def driver_lines(scn, trace, repaired):
-    out = [scn.model_cfg(repaired)]
+    out = [scn.model_cfg(repaired).replace(" rep=", f" hooks={hooks_of(trace)} rep=", 1)]
     for l in trace:
         if l.startswith("S "):
             out.append("S " + l.split()[1])
@@ -263,6 +267,8 @@ def reference(scn, trace):
         elif l.startswith("V "):
             verdict = t[1]
     end = trace[-1] if trace else "end lost"
+    if verdict == "BADPREFIX":
+        return []        # a recorded schedule that does not fit the current code (replay of an old failure): nothing observed
     if verdict == "DEADLOCK":
         d = next((x for x in trace if x.startswith("D ")), "D ?")
         f = next((x for x in trace if x.startswith("F ")), "")
@@ -325,6 +331,7 @@ def summarize(scn, req, trace, mo, want_enabled):
     if want_enabled or bad or d:
         r["choices"] = ch
     r["fin"] = next((l for l in trace if l.startswith("F ")), "")
+    r["hooks"] = hooks_of(trace)
     return r
 
 
